@@ -171,7 +171,7 @@ Proof.
     change (bytes_eqb (firstn 6 (negotiation_bytes false)) probe_expected) with true.
     change (bytes_eqb (negotiation_bytes false) (probe_expected ++ [10])) with true.
     rewrite ?bytes_eqb_refl. reflexivity. }
-  reflexivity.
+  rewrite (errmsg_of_none r Eerr). reflexivity.
 Qed.
 
 Lemma detector_meets_spec : forall reply,
